@@ -346,10 +346,13 @@ def main():
     import translate_code7
     import translate_code8
     import translate_code9
+    import translate_code10
+    import translate_code11
     for g in (translate_grammar.gen_grammar, translate_cache.gen_cache_table, translate_effects.gen_effects,
               translate_durtext.gen_durtext, translate_code.gen_code, translate_code2.gen_code2, translate_code3.gen_code3,
               translate_code4.gen_code4, translate_code6.gen_code6, translate_code7.gen_code7,
-              translate_code5.gen_code5, translate_code8.gen_code8, translate_code9.gen_code9):
+              translate_code5.gen_code5, translate_code8.gen_code8, translate_code9.gen_code9,
+              translate_code10.gen_code10, translate_code11.gen_code11):
         if g not in GENERATORS:
             GENERATORS.append(g)
     changed = [g.__name__ for g in GENERATORS if g()]
